@@ -50,7 +50,7 @@ BOUNDS = {
     "quick": {"shapes": "18 value shapes; all ordered pairs; triples over 5 shapes",
               "payloads": "ints in [0, 1] plus True (1 == True); witness object int in [-1, 2], 'a', None; 14 of the 18 shapes",
               "typevar_map": "T -> int | Literal[payload] | str"},
-    "thorough": {"shapes": "18 shapes; all pairs; triples over 11 shapes", "payloads": "ints in [-2, 2] plus True / 1.0", "typevar_map": "same"},
+    "thorough": {"shapes": "20 shapes; all pairs; half of the triples over 9 shapes", "payloads": "ints in [-1, 1] plus True / 1.0", "typevar_map": "same"},
 }
 OUTSIDE = ["CallableValue / protocols (signature comparison is C07)", "payloads outside the stated range (hashing realises them)"]
 STUBS = []
@@ -280,14 +280,14 @@ def h14_triple(x: int, y: int, z: int, tsel: int) -> bool:
 def cases(tier: str, seed: int) -> List[Case]:
     out: List[Case] = []
     quick = tier == "quick"
-    rng = 1 if quick else 2
-    lo = 0 if quick else -2
+    rng = 1
+    lo = 0 if quick else -1
     pshapes = [s for s in SHAPES if s not in ("litf", "lits", "str", "dinc", "td")] if quick else SHAPES
     for sa, sb in itertools.product(pshapes, repeat=2):
         out.append(Case("h14_pair", f"pair:{sa},{sb}", {"shapes": [sa, sb], "range": rng, "lo": lo}, timeout=90 if quick else 600,
                         twin=(sa <= sb)))
     tshapes = ["lit", "int", "u2", "utv", "tv"] if quick else \
-        ["lit", "litb", "litf", "ulit", "int", "ann", "u2", "utv", "tv", "never", "any"]
+        ["lit", "litb", "litf", "int", "ann", "u2", "utv", "tv", "annu"]
     for idx, (sa, sb, sc) in enumerate(itertools.product(tshapes, repeat=3)):
         if (not quick) and (idx + seed) % 2 != 0:
             continue
